@@ -726,10 +726,72 @@ func (ecd Encoder) decodePublic(pt *rlwe.Plaintext, values FloatSlice, logprec f
 		}
 
 	} else {
-		return ecd.plaintextToFloat(pt.Level(), pt.Scale, logSlots, ecd.buff, values)
+
+		if err = ecd.plaintextToFloat(pt.Level(), pt.Scale, logSlots, ecd.buff, values); err != nil {
+			return
+		}
+
+		if logprec != 0 {
+			ecd.roundToLogPrec(values, logprec)
+		}
 	}
 
 	return
+}
+
+// roundToLogPrec rounds in place the real part of the first min(len(values), N) elements
+// of values (the ones written by a decoding in the coefficients domain) to the nearest
+// multiple of 2^{-logprec}.
+func (ecd Encoder) roundToLogPrec(values FloatSlice, logprec float64) {
+
+	N := ecd.parameters.N()
+
+	// 2^logprec
+	bigScale := func() (scale *big.Float) {
+		scale = new(big.Float).SetPrec(ecd.Prec()).SetFloat64(logprec)
+		scale.Mul(scale, bignum.Log2(ecd.Prec()))
+		return bignum.Exp(scale)
+	}
+
+	switch values := values.(type) {
+	case []float64:
+
+		scale := math.Exp2(logprec)
+
+		for i := 0; i < utils.Min(len(values), N); i++ {
+			values[i] = math.Round(values[i]*scale) / scale
+		}
+
+	case []complex128:
+
+		scale := math.Exp2(logprec)
+
+		for i := 0; i < utils.Min(len(values), N); i++ {
+			values[i] = complex(math.Round(real(values[i])*scale)/scale, 0)
+		}
+
+	case []*big.Float:
+
+		scale := bigScale()
+
+		for i := 0; i < utils.Min(len(values), N); i++ {
+			if values[i] != nil {
+				values[i].Mul(values[i], scale)
+				values[i].Quo(bignum.Round(values[i]), scale)
+			}
+		}
+
+	case []*bignum.Complex:
+
+		scale := bigScale()
+
+		for i := 0; i < utils.Min(len(values), N); i++ {
+			if values[i] != nil && values[i][0] != nil {
+				values[i][0].Mul(values[i][0], scale)
+				values[i][0].Quo(bignum.Round(values[i][0]), scale)
+			}
+		}
+	}
 }
 
 // IFFT evaluates the special 2^{LogN}-th encoding discrete Fourier transform on [FloatSlice].
